@@ -32,20 +32,20 @@ import (
 	"golang.org/x/crypto/ssh/agent"
 )
 
-type vCertDef struct {
+type zvfVCertDef struct {
 	Key string `json:"key"`
 	V0  bool   `json:"v0"`
 	V1  bool   `json:"v1"`
 	Yss bool   `json:"yss"`
 }
 
-type vUniverse struct {
+type zvfVUniverse struct {
 	Keys  []string            `json:"keys"`
-	Certs map[string]vCertDef `json:"certs"`
+	Certs map[string]zvfVCertDef `json:"certs"`
 	Pass  []string            `json:"pass"`
 }
 
-type vState struct {
+type zvfVState struct {
 	U  []string `json:"u"`
 	Ul bool     `json:"ul"`
 	Up string   `json:"up"`
@@ -58,12 +58,12 @@ type vState struct {
 	Fv []string `json:"fv"`
 }
 
-type vFault struct {
+type zvfVFault struct {
 	Kind string `json:"kind"`
 	Hit  string `json:"hit"`
 }
 
-type vRes struct {
+type zvfVRes struct {
 	Ok  bool     `json:"ok"`
 	Pan bool     `json:"pan"`
 	L1  []string `json:"l1"`
@@ -71,46 +71,46 @@ type vRes struct {
 	By  string   `json:"by"`
 }
 
-type vLabel struct {
+type zvfVLabel struct {
 	Op  string `json:"op"`
 	Arg string `json:"arg"`
-	F   vFault `json:"f"`
-	Res vRes   `json:"res"`
+	F   zvfVFault `json:"f"`
+	Res zvfVRes   `json:"res"`
 }
 
-type vWalk struct {
+type zvfVWalk struct {
 	Init  int      `json:"init"`
 	Steps [][2]int `json:"steps"` // [label id, target state id]
-	Tail  *vLabel  `json:"tail"`  // optional faulted operation appended to the walk
+	Tail  *zvfVLabel  `json:"tail"`  // optional faulted operation appended to the walk
 }
 
-type vReplay struct {
-	Universe vUniverse `json:"universe"`
-	Init     vState    `json:"init"`
-	Ops      []vLabel  `json:"ops"`
+type zvfVReplay struct {
+	Universe zvfVUniverse `json:"universe"`
+	Init     zvfVState    `json:"init"`
+	Ops      []zvfVLabel  `json:"ops"`
 }
 
-type vRandomCfg struct {
+type zvfVRandomCfg struct {
 	N        int       `json:"n"`
 	MinLen   int       `json:"minlen"`
 	MaxLen   int       `json:"maxlen"`
-	Universe vUniverse `json:"universe"`
+	Universe zvfVUniverse `json:"universe"`
 	Ops      []string  `json:"ops"`
 	Faults   []string  `json:"faults"`
 }
 
-type vPlan struct {
-	Universe vUniverse   `json:"universe"`
-	States   []vState    `json:"states"`
-	Labels   []vLabel    `json:"labels"`
-	Walks    []vWalk     `json:"walks"`
-	Random   *vRandomCfg `json:"random"`
-	Replays  []vReplay   `json:"replays"`  // recorded traces to re-execute (check --replay)
-	NewCases []vFault    `json:"newcases"` // construction through New(): kind = fault kind or "none", hit = "up"/"noup"
+type zvfVPlan struct {
+	Universe zvfVUniverse   `json:"universe"`
+	States   []zvfVState    `json:"states"`
+	Labels   []zvfVLabel    `json:"labels"`
+	Walks    []zvfVWalk     `json:"walks"`
+	Random   *zvfVRandomCfg `json:"random"`
+	Replays  []zvfVReplay   `json:"replays"`  // recorded traces to re-execute (check --replay)
+	NewCases []zvfVFault    `json:"newcases"` // construction through New(): kind = fault kind or "none", hit = "up"/"noup"
 	FullLog  int         `json:"fulllog"` // number of walks logged in full (samples for TLC and the evidence file)
 }
 
-func normSet(s []string) []string {
+func zvfNormSet(s []string) []string {
 	if s == nil {
 		return []string{}
 	}
@@ -119,20 +119,20 @@ func normSet(s []string) []string {
 	return o
 }
 
-func (s vState) norm() vState {
-	s.U, s.M, s.C, s.Fv = normSet(s.U), normSet(s.M), normSet(s.C), normSet(s.Fv)
+func (s zvfVState) norm() zvfVState {
+	s.U, s.M, s.C, s.Fv = zvfNormSet(s.U), zvfNormSet(s.M), zvfNormSet(s.C), zvfNormSet(s.Fv)
 	return s
 }
 
-func (r vRes) norm() vRes {
-	r.L1, r.L2 = normSet(r.L1), normSet(r.L2)
+func (r zvfVRes) norm() zvfVRes {
+	r.L1, r.L2 = zvfNormSet(r.L1), zvfNormSet(r.L2)
 	return r
 }
 
 // ---------------------------------------------------------------------------------------------
 
-type vInst struct {
-	u      *vUniverse
+type zvfVInst struct {
+	u      *zvfVUniverse
 	rnd    *mrand.Rand
 	keys   map[string]*verifh.KeyPair
 	certs  map[string]*ssh.Certificate
@@ -152,24 +152,24 @@ type vInst struct {
 }
 
 // rint is a goroutine-safe in.rnd.Intn.
-func (in *vInst) rint(n int) int {
+func (in *zvfVInst) rint(n int) int {
 	in.rmu.Lock()
 	defer in.rmu.Unlock()
 	return in.rnd.Intn(n)
 }
 
-var vCA = verifh.GenKey("ca", "ed25519")
+var zvfVCA = verifh.GenKey("ca", "ed25519")
 
-// vWrapConn, when set, wraps the connection handed to newShimAgent (used by the concurrency harness).
-var vWrapConn func(net.Conn) io.ReadWriteCloser
-var vInstMu sync.Mutex
+// zvfVWrapConn, when set, wraps the connection handed to newShimAgent (used by the concurrency harness).
+var zvfVWrapConn func(net.Conn) io.ReadWriteCloser
+var zvfVInstMu sync.Mutex
 
-func keyKindFor(slot int) string {
+func zvfKeyKindFor(slot int) string {
 	return verifh.KeyKinds[(int(verifh.Seed())+slot)%len(verifh.KeyKinds)]
 }
 
 // window picks concrete validity bounds for an abstract class.
-func (in *vInst) window(d vCertDef, forever bool, now0 int64) (va, vb uint64, class string) {
+func (in *zvfVInst) window(d zvfVCertDef, forever bool, now0 int64) (va, vb uint64, class string) {
 	r := in.rnd
 	T := uint64(in.T)
 	n := uint64(now0)
@@ -217,11 +217,11 @@ func (in *vInst) window(d vCertDef, forever bool, now0 int64) (va, vb uint64, cl
 	}
 }
 
-func newInst(u *vUniverse, init vState, hasTick bool, rnd *mrand.Rand) *vInst {
-	in := &vInst{u: u, rnd: rnd, keys: map[string]*verifh.KeyPair{}, certs: map[string]*ssh.Certificate{},
-		byBlob: map[string]string{}, byHash: map[hashcode]string{}, noUp: init.Nu, fv: normSet(init.Fv), classes: map[string]string{}}
+func zvfNewInst(u *zvfVUniverse, init zvfVState, zvfHasTick bool, rnd *mrand.Rand) *zvfVInst {
+	in := &zvfVInst{u: u, rnd: rnd, keys: map[string]*verifh.KeyPair{}, certs: map[string]*ssh.Certificate{},
+		byBlob: map[string]string{}, byHash: map[hashcode]string{}, noUp: init.Nu, fv: zvfNormSet(init.Fv), classes: map[string]string{}}
 	now0 := time.Now().Unix()
-	if hasTick {
+	if zvfHasTick {
 		in.T = now0 + 4
 	} else {
 		in.T = now0 + 7200
@@ -240,7 +240,7 @@ func newInst(u *vUniverse, init vState, hasTick bool, rnd *mrand.Rand) *vInst {
 	}
 	sort.Strings(allKeys)
 	for i, k := range allKeys {
-		kp := verifh.PoolKey(i, keyKindFor(i))
+		kp := verifh.PoolKey(i, zvfKeyKindFor(i))
 		in.keys[k] = kp
 		in.byBlob[string(kp.Pub.Marshal())] = k
 	}
@@ -263,7 +263,7 @@ func newInst(u *vUniverse, init vState, hasTick bool, rnd *mrand.Rand) *vInst {
 			kclass = verifh.NonYssKeyIDs[rnd.Intn(len(verifh.NonYssKeyIDs))]
 		}
 		kid = verifh.KeyIDText(kclass, fmt.Sprintf("%010x", rnd.Int63n(1<<40)), rnd)
-		crt := verifh.Mint(vCA.Signer, verifh.CertSpec{Key: in.keys[d.Key].Pub, KeyID: kid, ValidAfter: va, ValidBefore: vb,
+		crt := verifh.Mint(zvfVCA.Signer, verifh.CertSpec{Key: in.keys[d.Key].Pub, KeyID: kid, ValidAfter: va, ValidBefore: vb,
 			Principals: []string{"p" + c}, Serial: uint64(i + 1)})
 		in.certs[c] = crt
 		in.byBlob[string(crt.Marshal())] = c
@@ -271,7 +271,7 @@ func newInst(u *vUniverse, init vState, hasTick bool, rnd *mrand.Rand) *vInst {
 		in.classes[c] = class + "/" + kclass
 	}
 	in.kr = agent.NewKeyring()
-	for _, id := range normSet(init.U) {
+	for _, id := range zvfNormSet(init.U) {
 		if err := in.kr.Add(in.addedKey(id)); err != nil {
 			panic(err)
 		}
@@ -285,8 +285,8 @@ func newInst(u *vUniverse, init vState, hasTick bool, rnd *mrand.Rand) *vInst {
 		return reply
 	}
 	var conn io.ReadWriteCloser = in.px.Client
-	if vWrapConn != nil {
-		conn = vWrapConn(in.px.Client)
+	if zvfVWrapConn != nil {
+		conn = zvfVWrapConn(in.px.Client)
 	}
 	srv, err := newShimAgent(conn, in.noUp)
 	if err != nil {
@@ -297,28 +297,28 @@ func newInst(u *vUniverse, init vState, hasTick bool, rnd *mrand.Rand) *vInst {
 	return in
 }
 
-func (in *vInst) addedKey(id string) agent.AddedKey {
+func (in *zvfVInst) addedKey(id string) agent.AddedKey {
 	if c, ok := in.certs[id]; ok {
 		return agent.AddedKey{PrivateKey: in.keys[in.u.Certs[id].Key].Priv, Certificate: c, Comment: "cmt-" + id}
 	}
 	return agent.AddedKey{PrivateKey: in.keys[id].Priv, Comment: "cmt-" + id}
 }
 
-func (in *vInst) pub(id string) ssh.PublicKey {
+func (in *zvfVInst) pub(id string) ssh.PublicKey {
 	if c, ok := in.certs[id]; ok {
 		return c
 	}
 	return in.keys[id].Pub
 }
 
-func (in *vInst) idOf(blob []byte) string {
+func (in *zvfVInst) idOf(blob []byte) string {
 	if id, ok := in.byBlob[string(blob)]; ok {
 		return id
 	}
-	return "?" + hex.EncodeToString(blob[:minInt(8, len(blob))])
+	return "?" + hex.EncodeToString(blob[:zvfMinInt(8, len(blob))])
 }
 
-func minInt(a, b int) int {
+func zvfMinInt(a, b int) int {
 	if a < b {
 		return a
 	}
@@ -326,8 +326,8 @@ func minInt(a, b int) int {
 }
 
 // project reads the abstract state off the real objects.
-func (in *vInst) project() vState {
-	st := vState{Nu: in.noUp, N: in.now, Fv: in.fv}
+func (in *zvfVInst) project() zvfVState {
+	st := zvfVState{Nu: in.noUp, N: in.now, Fv: in.fv}
 	// underlying agent: owned by the harness; probe the lock with the candidate passphrases
 	st.Up = "none"
 	cands := append([]string{"other"}, in.u.Pass...)
@@ -374,7 +374,7 @@ func (in *vInst) project() vState {
 	return st.norm()
 }
 
-func bag(ids []string) (l1, l2 []string) {
+func zvfBag(ids []string) (l1, l2 []string) {
 	cnt := map[string]int{}
 	for _, id := range ids {
 		cnt[id]++
@@ -392,10 +392,10 @@ func bag(ids []string) (l1, l2 []string) {
 }
 
 // exec runs one operation of the shim (or an environment action) and returns the observed result.
-func (in *vInst) exec(op, arg string) (res vRes) {
+func (in *zvfVInst) exec(op, arg string) (res zvfVRes) {
 	defer func() {
 		if r := recover(); r != nil {
-			res = vRes{Ok: false, Pan: true, By: ""}
+			res = zvfVRes{Ok: false, Pan: true, By: ""}
 			fmt.Fprintf(os.Stderr, "verif: PANIC in %s(%s): %v\n", op, arg, r)
 		}
 		res = res.norm()
@@ -405,25 +405,25 @@ func (in *vInst) exec(op, arg string) (res vRes) {
 	case "list":
 		ks, err := s.List()
 		if err != nil {
-			return vRes{}
+			return zvfVRes{}
 		}
 		var ids []string
 		for _, k := range ks {
 			ids = append(ids, in.idOf(k.Blob))
 		}
-		l1, l2 := bag(ids)
-		return vRes{Ok: true, L1: l1, L2: l2}
+		l1, l2 := zvfBag(ids)
+		return zvfVRes{Ok: true, L1: l1, L2: l2}
 	case "signers":
 		ss, err := s.Signers()
 		if err != nil {
-			return vRes{}
+			return zvfVRes{}
 		}
 		var ids []string
 		for _, sg := range ss {
 			ids = append(ids, in.idOf(sg.PublicKey().Marshal()))
 		}
-		l1, l2 := bag(ids)
-		r := vRes{Ok: true, L1: l1, L2: l2}
+		l1, l2 := zvfBag(ids)
+		r := zvfVRes{Ok: true, L1: l1, L2: l2}
 		return r
 	case "sign":
 		data := make([]byte, 16+in.rint(48))
@@ -441,7 +441,7 @@ func (in *vInst) exec(op, arg string) (res vRes) {
 			sig, err = s.SignWithFlags(pk, data, flags)
 		}
 		if err != nil {
-			return vRes{}
+			return zvfVRes{}
 		}
 		by := "none"
 		ids := make([]string, 0, len(in.keys))
@@ -455,13 +455,13 @@ func (in *vInst) exec(op, arg string) (res vRes) {
 				break
 			}
 		}
-		return vRes{Ok: true, By: by}
+		return zvfVRes{Ok: true, By: by}
 	case "signersuse":
 		ss, err := s.Signers()
 		if err != nil {
-			return vRes{}
+			return zvfVRes{}
 		}
-		r := vRes{Ok: true}
+		r := zvfVRes{Ok: true}
 		for _, sg := range ss {
 			data := make([]byte, 24)
 			rand.Read(data)
@@ -486,23 +486,23 @@ func (in *vInst) exec(op, arg string) (res vRes) {
 		if in.rint(3) == 0 {
 			ak.LifetimeSecs = 3600 + uint32(in.rint(1000))
 		}
-		return vRes{Ok: s.Add(ak) == nil}
+		return zvfVRes{Ok: s.Add(ak) == nil}
 	case "addhard":
-		return vRes{Ok: s.AddHardCert(in.pub(arg), "sfx") == nil}
+		return zvfVRes{Ok: s.AddHardCert(in.pub(arg), "sfx") == nil}
 	case "remove":
-		return vRes{Ok: s.Remove(in.pub(arg)) == nil}
+		return zvfVRes{Ok: s.Remove(in.pub(arg)) == nil}
 	case "removeall":
-		return vRes{Ok: s.RemoveAll() == nil}
+		return zvfVRes{Ok: s.RemoveAll() == nil}
 	case "lock":
-		return vRes{Ok: s.Lock([]byte(arg)) == nil}
+		return zvfVRes{Ok: s.Lock([]byte(arg)) == nil}
 	case "unlock":
-		return vRes{Ok: s.Unlock([]byte(arg)) == nil}
+		return zvfVRes{Ok: s.Unlock([]byte(arg)) == nil}
 	case "close":
 		err := s.Close()
 		if err == nil {
 			in.closed = true
 		}
-		return vRes{Ok: err == nil}
+		return zvfVRes{Ok: err == nil}
 	case "forward":
 		var req []byte
 		if arg == "list" {
@@ -517,7 +517,7 @@ func (in *vInst) exec(op, arg string) (res vRes) {
 		}
 		resp, err := s.Forward(req)
 		if err != nil {
-			return vRes{}
+			return zvfVRes{}
 		}
 		by := "altered"
 		if in.echo {
@@ -531,13 +531,13 @@ func (in *vInst) exec(op, arg string) (res vRes) {
 				by = "relayed"
 			}
 		}
-		return vRes{Ok: true, By: by}
+		return zvfVRes{Ok: true, By: by}
 	case "extension":
 		body := make([]byte, 8+in.rint(100))
 		rand.Read(body)
 		resp, err := s.Extension("verif@x", body)
 		if err != nil {
-			return vRes{}
+			return zvfVRes{}
 		}
 		by := "relayed"
 		if in.echo {
@@ -548,34 +548,34 @@ func (in *vInst) exec(op, arg string) (res vRes) {
 				by = "altered"
 			}
 		}
-		return vRes{Ok: true, By: by}
+		return zvfVRes{Ok: true, By: by}
 	// ---- environment actions, applied to the harness-owned underlying agent directly
 	case "dremove":
 		if err := in.kr.Remove(in.pub(arg)); err != nil {
 			panic("verif: dremove failed: " + err.Error())
 		}
-		return vRes{Ok: true}
+		return zvfVRes{Ok: true}
 	case "dlock":
 		if err := in.kr.Lock([]byte("other")); err != nil {
 			panic("verif: dlock failed: " + err.Error())
 		}
-		return vRes{Ok: true}
+		return zvfVRes{Ok: true}
 	case "dunlock":
 		if err := in.kr.Unlock([]byte("other")); err != nil {
 			panic("verif: dunlock failed: " + err.Error())
 		}
-		return vRes{Ok: true}
+		return zvfVRes{Ok: true}
 	case "tick":
 		for time.Now().Unix() < in.T+2 {
 			time.Sleep(50 * time.Millisecond)
 		}
 		in.now = 1
-		return vRes{Ok: true}
+		return zvfVRes{Ok: true}
 	}
 	panic("verif: unknown op " + op)
 }
 
-func (in *vInst) keyKindOfBlob(pk ssh.PublicKey) string {
+func (in *zvfVInst) keyKindOfBlob(pk ssh.PublicKey) string {
 	id := in.idOf(pk.Marshal())
 	if _, ok := in.keys[id]; ok {
 		return in.keyKind(id)
@@ -586,7 +586,7 @@ func (in *vInst) keyKindOfBlob(pk ssh.PublicKey) string {
 	return ""
 }
 
-func (in *vInst) keyKind(id string) string {
+func (in *zvfVInst) keyKind(id string) string {
 	if d, ok := in.u.Certs[id]; ok {
 		return in.keys[d.Key].Kind
 	}
@@ -594,41 +594,41 @@ func (in *vInst) keyKind(id string) string {
 }
 
 // step = exec + projection; fault (kind, hit) optional.
-func (in *vInst) step(op, arg string, f vFault) (vLabel, vState) {
+func (in *zvfVInst) step(op, arg string, f zvfVFault) (zvfVLabel, zvfVState) {
 	in.px.Begin()
 	if f.Kind != "" && f.Kind != "none" {
 		in.px.Arm(f.Kind, f.Hit)
 	}
 	res := in.exec(op, arg)
-	lab := vLabel{Op: op, Arg: arg, F: vFault{"none", "none"}, Res: res}
+	lab := zvfVLabel{Op: op, Arg: arg, F: zvfVFault{"none", "none"}, Res: res}
 	if fired, hit := in.px.Fired(); fired {
-		lab.F = vFault{f.Kind, hit}
+		lab.F = zvfVFault{f.Kind, hit}
 	}
 	in.px.Begin()
 	return lab, in.project()
 }
 
-func (in *vInst) close() {
+func (in *zvfVInst) close() {
 	in.px.Close()
 }
 
-type vRec struct {
+type zvfVRec struct {
 	Ev   string      `json:"ev"`
 	Tid  string      `json:"tid"`
 	I    int         `json:"i"`
-	Pre  *vState     `json:"pre,omitempty"`
-	E    *vLabel     `json:"e,omitempty"`
-	Post vState      `json:"post"`
+	Pre  *zvfVState     `json:"pre,omitempty"`
+	E    *zvfVLabel     `json:"e,omitempty"`
+	Post zvfVState      `json:"post"`
 	Exp  interface{} `json:"exp,omitempty"`
 	Info interface{} `json:"info,omitempty"`
 }
 
-type vStats struct {
+type zvfVStats struct {
 	walks, steps, deviations, discarded, faultSteps, randomTraces, randomSteps int64
 	labels                                                                     sync.Map
 }
 
-func hasTick(p *vPlan, w vWalk) bool {
+func zvfHasTick(p *zvfVPlan, w zvfVWalk) bool {
 	for _, s := range w.Steps {
 		if p.Labels[s[0]].Op == "tick" {
 			return true
@@ -646,7 +646,7 @@ func TestVerifShim(t *testing.T) {
 	if err != nil {
 		t.Fatal(err)
 	}
-	var plan vPlan
+	var plan zvfVPlan
 	if err := json.Unmarshal(raw, &plan); err != nil {
 		t.Fatal(err)
 	}
@@ -660,7 +660,7 @@ func TestVerifShim(t *testing.T) {
 	if err != nil {
 		t.Fatal(err)
 	}
-	var st vStats
+	var st zvfVStats
 	workers := runtime.GOMAXPROCS(0)
 	sem := make(chan struct{}, workers)
 	var wg sync.WaitGroup
@@ -679,8 +679,8 @@ func TestVerifShim(t *testing.T) {
 			}()
 			w := plan.Walks[wi]
 			rnd := verifh.NewRand("walk", int64(wi))
-			tick := hasTick(&plan, w)
-			in := newInst(&plan.Universe, plan.States[w.Init], tick, rnd)
+			tick := zvfHasTick(&plan, w)
+			in := zvfNewInst(&plan.Universe, plan.States[w.Init], tick, rnd)
 			defer in.close()
 			tid := fmt.Sprintf("w%d", wi)
 			full := wi < plan.FullLog
@@ -688,13 +688,13 @@ func TestVerifShim(t *testing.T) {
 			cur := in.project()
 			if !reflect.DeepEqual(cur, plan.States[w.Init]) {
 				// construction itself deviates from the model's initial state
-				recs = append(recs, vRec{Ev: "reset", Tid: tid, Post: plan.States[w.Init], Info: in.classes})
-				recs = append(recs, vRec{Ev: "step", Tid: tid, I: 0, Pre: &plan.States[w.Init], E: &vLabel{Op: "construct", F: vFault{"none", "none"}, Res: vRes{Ok: true}.norm()}, Post: cur, Exp: plan.States[w.Init]})
+				recs = append(recs, zvfVRec{Ev: "reset", Tid: tid, Post: plan.States[w.Init], Info: in.classes})
+				recs = append(recs, zvfVRec{Ev: "step", Tid: tid, I: 0, Pre: &plan.States[w.Init], E: &zvfVLabel{Op: "construct", F: zvfVFault{"none", "none"}, Res: zvfVRes{Ok: true}.norm()}, Post: cur, Exp: plan.States[w.Init]})
 				tr.EmitAll(recs)
 				atomic.AddInt64(&st.deviations, 1)
 				return
 			}
-			recs = append(recs, vRec{Ev: "reset", Tid: tid, Post: cur, Info: in.classes})
+			recs = append(recs, zvfVRec{Ev: "reset", Tid: tid, Post: cur, Info: in.classes})
 			atomic.AddInt64(&st.walks, 1)
 			deviated := false
 			for si, s := range w.Steps {
@@ -710,17 +710,17 @@ func TestVerifShim(t *testing.T) {
 					sem <- struct{}{}
 					held = true
 					in.now = 1
-					lab := vLabel{Op: "tick", F: vFault{"none", "none"}, Res: vRes{Ok: true}.norm()}
+					lab := zvfVLabel{Op: "tick", F: zvfVFault{"none", "none"}, Res: zvfVRes{Ok: true}.norm()}
 					post := in.project()
 					if full {
 						pre := cur
-						recs = append(recs, vRec{Ev: "step", Tid: tid, I: si + 1, Pre: &pre, E: &lab, Post: post})
+						recs = append(recs, zvfVRec{Ev: "step", Tid: tid, I: si + 1, Pre: &pre, E: &lab, Post: post})
 					}
 					cur = post
 					atomic.AddInt64(&st.steps, 1)
 					continue
 				}
-				lab, post := in.step(exp.Op, exp.Arg, vFault{})
+				lab, post := in.step(exp.Op, exp.Arg, zvfVFault{})
 				atomic.AddInt64(&st.steps, 1)
 				st.labels.Store(s[0], true)
 				pre := cur
@@ -728,16 +728,16 @@ func TestVerifShim(t *testing.T) {
 				if !ok {
 					if !full {
 						recs = recs[:0]
-						recs = append(recs, vRec{Ev: "reset", Tid: tid, Post: pre, Info: in.classes})
+						recs = append(recs, zvfVRec{Ev: "reset", Tid: tid, Post: pre, Info: in.classes})
 					}
-					recs = append(recs, vRec{Ev: "step", Tid: tid, I: si + 1, Pre: &pre, E: &lab, Post: post,
+					recs = append(recs, zvfVRec{Ev: "step", Tid: tid, I: si + 1, Pre: &pre, E: &lab, Post: post,
 						Exp: map[string]interface{}{"e": exp, "t": plan.States[s[1]]}})
 					atomic.AddInt64(&st.deviations, 1)
 					deviated = true
 					break
 				}
 				if full {
-					recs = append(recs, vRec{Ev: "step", Tid: tid, I: si + 1, Pre: &pre, E: &lab, Post: post})
+					recs = append(recs, zvfVRec{Ev: "step", Tid: tid, I: si + 1, Pre: &pre, E: &lab, Post: post})
 				}
 				cur = post
 			}
@@ -747,9 +747,9 @@ func TestVerifShim(t *testing.T) {
 				atomic.AddInt64(&st.faultSteps, 1)
 				if !full {
 					recs = recs[:0]
-					recs = append(recs, vRec{Ev: "reset", Tid: tid, Post: pre, Info: in.classes})
+					recs = append(recs, zvfVRec{Ev: "reset", Tid: tid, Post: pre, Info: in.classes})
 				}
-				recs = append(recs, vRec{Ev: "step", Tid: tid, I: len(w.Steps) + 1, Pre: &pre, E: &lab, Post: post})
+				recs = append(recs, zvfVRec{Ev: "step", Tid: tid, I: len(w.Steps) + 1, Pre: &pre, E: &lab, Post: post})
 				full = true
 			}
 			if full || deviated {
@@ -764,28 +764,28 @@ func TestVerifShim(t *testing.T) {
 		rp := plan.Replays[ri]
 		if len(rp.Ops) == 1 && rp.Ops[0].Op == "new" {
 			plan.Universe = rp.Universe
-			vNewCase(&plan, ri, vFault{Kind: rp.Ops[0].F.Kind, Hit: rp.Ops[0].Arg}, tr, &st)
+			zvfVNewCase(&plan, ri, zvfVFault{Kind: rp.Ops[0].F.Kind, Hit: rp.Ops[0].Arg}, tr, &st)
 			continue
 		}
 		tick := false
 		for _, o := range rp.Ops {
 			tick = tick || o.Op == "tick"
 		}
-		in := newInst(&rp.Universe, rp.Init, tick, verifh.NewRand("replay", int64(ri)))
+		in := zvfNewInst(&rp.Universe, rp.Init, tick, verifh.NewRand("replay", int64(ri)))
 		tid := fmt.Sprintf("p%d", ri)
 		cur := in.project()
-		recs := []interface{}{vRec{Ev: "reset", Tid: tid, Post: cur, Info: in.classes}}
+		recs := []interface{}{zvfVRec{Ev: "reset", Tid: tid, Post: cur, Info: in.classes}}
 		for i, o := range rp.Ops {
 			pre := cur
-			var lab vLabel
-			var post vState
+			var lab zvfVLabel
+			var post zvfVState
 			if o.Op == "tick" || o.Op == "dremove" || o.Op == "dlock" || o.Op == "dunlock" {
-				lab = vLabel{Op: o.Op, Arg: o.Arg, F: vFault{"none", "none"}, Res: in.exec(o.Op, o.Arg)}
+				lab = zvfVLabel{Op: o.Op, Arg: o.Arg, F: zvfVFault{"none", "none"}, Res: in.exec(o.Op, o.Arg)}
 				post = in.project()
 			} else {
 				lab, post = in.step(o.Op, o.Arg, o.F)
 			}
-			recs = append(recs, vRec{Ev: "step", Tid: tid, I: i + 1, Pre: &pre, E: &lab, Post: post})
+			recs = append(recs, zvfVRec{Ev: "step", Tid: tid, I: i + 1, Pre: &pre, E: &lab, Post: post})
 			cur = post
 		}
 		tr.EmitAll(recs)
@@ -795,11 +795,11 @@ func TestVerifShim(t *testing.T) {
 	// ---- construction through the exported New() over a real unix socket
 	for ci, nc := range plan.NewCases {
 		wg.Add(1)
-		go func(ci int, nc vFault) {
+		go func(ci int, nc zvfVFault) {
 			defer wg.Done()
 			sem <- struct{}{}
 			defer func() { <-sem }()
-			vNewCase(&plan, ci, nc, tr, &st)
+			zvfVNewCase(&plan, ci, nc, tr, &st)
 		}(ci, nc)
 	}
 	wg.Wait()
@@ -812,7 +812,7 @@ func TestVerifShim(t *testing.T) {
 				defer wg.Done()
 				sem <- struct{}{}
 				defer func() { <-sem }()
-				vRandomTrace(&plan, ti, tr, &st)
+				zvfVRandomTrace(&plan, ti, tr, &st)
 			}(ti)
 		}
 		wg.Wait()
@@ -829,19 +829,19 @@ func TestVerifShim(t *testing.T) {
 	fmt.Printf("VERIF-SUMMARY %s\n", b)
 }
 
-// vNewCase constructs a shim with shimagent.New over a unix socket served by the proxy, optionally with the
+// zvfVNewCase constructs a shim with shimagent.New over a unix socket served by the proxy, optionally with the
 // first request (the construction-time list of no-upstream mode) faulted.
-func vNewCase(plan *vPlan, ci int, nc vFault, tr *verifh.Trace, st *vStats) {
+func zvfVNewCase(plan *zvfVPlan, ci int, nc zvfVFault, tr *verifh.Trace, st *zvfVStats) {
 	rnd := verifh.NewRand("new", int64(ci))
 	u := &plan.Universe
-	var init vState
-	for _, id := range append(append([]string{}, u.Keys...), sortedCerts(u)...) {
+	var init zvfVState
+	for _, id := range append(append([]string{}, u.Keys...), zvfSortedCerts(u)...) {
 		if rnd.Intn(2) == 0 {
 			init.U = append(init.U, id)
 		}
 	}
 	init.Nu = nc.Hit == "noup"
-	helper := newInst(u, init, false, rnd) // only used for its keyring content and certificate tables
+	helper := zvfNewInst(u, init, false, rnd) // only used for its keyring content and certificate tables
 	defer helper.close()
 	dir, err := os.MkdirTemp("", "vshim")
 	if err != nil {
@@ -865,31 +865,31 @@ func vNewCase(plan *vPlan, ci int, nc vFault, tr *verifh.Trace, st *vStats) {
 			px.Serve(c)
 		}
 	}()
-	lab := vLabel{Op: "new", Arg: nc.Hit, F: vFault{"none", "none"}}
+	lab := zvfVLabel{Op: "new", Arg: nc.Hit, F: zvfVFault{"none", "none"}}
 	func() {
 		defer func() {
 			if r := recover(); r != nil {
-				lab.Res = vRes{Pan: true}
+				lab.Res = zvfVRes{Pan: true}
 				fmt.Fprintf(os.Stderr, "verif: PANIC in New(%s) with fault %s: %v\n", nc.Hit, nc.Kind, r)
 			}
 		}()
 		ag, err := New(Option{Address: sock, NoUpstream: nc.Hit == "noup"})
-		lab.Res = vRes{Ok: err == nil}
+		lab.Res = zvfVRes{Ok: err == nil}
 		if err == nil && ag != nil {
 			ag.Close()
 		}
 	}()
 	lab.Res = lab.Res.norm()
 	if fired, hit := px.Fired(); fired {
-		lab.F = vFault{nc.Kind, hit}
+		lab.F = zvfVFault{nc.Kind, hit}
 	}
 	pre := helper.project()
 	tid := fmt.Sprintf("n%d", ci)
 	atomic.AddInt64(&st.faultSteps, 1)
-	tr.EmitAll([]interface{}{vRec{Ev: "reset", Tid: tid, Post: pre}, vRec{Ev: "step", Tid: tid, I: 1, Pre: &pre, E: &lab, Post: pre}})
+	tr.EmitAll([]interface{}{zvfVRec{Ev: "reset", Tid: tid, Post: pre}, zvfVRec{Ev: "step", Tid: tid, I: 1, Pre: &pre, E: &lab, Post: pre}})
 }
 
-func sortedCerts(u *vUniverse) []string {
+func zvfSortedCerts(u *zvfVUniverse) []string {
 	var cids []string
 	for c := range u.Certs {
 		cids = append(cids, c)
@@ -898,10 +898,10 @@ func sortedCerts(u *vUniverse) []string {
 	return cids
 }
 
-func pick(r *mrand.Rand, xs []string) string { return xs[r.Intn(len(xs))] }
+func zvfPick(r *mrand.Rand, xs []string) string { return xs[r.Intn(len(xs))] }
 
-// vRandomTrace drives one random history and logs every step.
-func vRandomTrace(plan *vPlan, ti int, tr *verifh.Trace, st *vStats) {
+// zvfVRandomTrace drives one random history and logs every step.
+func zvfVRandomTrace(plan *zvfVPlan, ti int, tr *verifh.Trace, st *zvfVStats) {
 	cfg := plan.Random
 	rnd := verifh.NewRand("random", int64(ti))
 	u := &cfg.Universe
@@ -912,7 +912,7 @@ func vRandomTrace(plan *vPlan, ti int, tr *verifh.Trace, st *vStats) {
 	}
 	sort.Strings(cids)
 	ids = append(ids, cids...)
-	var init vState
+	var init zvfVState
 	init.Nu = rnd.Intn(2) == 0
 	for _, id := range ids {
 		if rnd.Intn(3) == 0 {
@@ -934,17 +934,17 @@ func vRandomTrace(plan *vPlan, ti int, tr *verifh.Trace, st *vStats) {
 		}
 	}
 	if hasT && rnd.Intn(3) == 0 {
-		tickAt = rnd.Intn(minInt(n, 25))
+		tickAt = rnd.Intn(zvfMinInt(n, 25))
 	}
-	in := newInst(u, init, tickAt >= 0, rnd)
+	in := zvfNewInst(u, init, tickAt >= 0, rnd)
 	defer in.close()
 	tid := fmt.Sprintf("r%d", ti)
 	cur := in.project()
-	recs := []interface{}{vRec{Ev: "reset", Tid: tid, Post: cur, Info: in.classes}}
+	recs := []interface{}{zvfVRec{Ev: "reset", Tid: tid, Post: cur, Info: in.classes}}
 	atomic.AddInt64(&st.randomTraces, 1)
 	for i := 0; i < n; i++ {
 		var op, arg string
-		f := vFault{}
+		f := zvfVFault{}
 		if i == tickAt {
 			if time.Now().Unix() >= in.T {
 				atomic.AddInt64(&st.discarded, 1)
@@ -953,7 +953,7 @@ func vRandomTrace(plan *vPlan, ti int, tr *verifh.Trace, st *vStats) {
 			op = "tick"
 		} else {
 			for {
-				op = pick(rnd, cfg.Ops)
+				op = zvfPick(rnd, cfg.Ops)
 				if op == "tick" {
 					continue
 				}
@@ -974,45 +974,45 @@ func vRandomTrace(plan *vPlan, ti int, tr *verifh.Trace, st *vStats) {
 			}
 			switch op {
 			case "sign", "add", "remove":
-				arg = pick(rnd, ids)
+				arg = zvfPick(rnd, ids)
 			case "addhard":
 				if rnd.Intn(6) == 0 {
-					arg = pick(rnd, u.Keys)
+					arg = zvfPick(rnd, u.Keys)
 				} else {
-					arg = pick(rnd, cids)
+					arg = zvfPick(rnd, cids)
 				}
 			case "lock", "unlock":
-				arg = pick(rnd, u.Pass)
+				arg = zvfPick(rnd, u.Pass)
 				if op == "unlock" && cur.L && rnd.Intn(2) == 0 && cur.Up != "?" {
 					arg = cur.Up
 				}
 			case "forward":
-				arg = pick(rnd, []string{"ext", "list"})
+				arg = zvfPick(rnd, []string{"ext", "list"})
 			case "dremove":
-				arg = pick(rnd, cur.U)
+				arg = zvfPick(rnd, cur.U)
 			}
 			if len(cfg.Faults) > 0 && rnd.Intn(12) == 0 && !cur.L && !cur.D {
-				f = vFault{Kind: pick(rnd, cfg.Faults), Hit: pick(rnd, []string{"list", "sign", "add", "remove", "removeall", "lock", "unlock", "raw", "list", "remove"})}
+				f = zvfVFault{Kind: zvfPick(rnd, cfg.Faults), Hit: zvfPick(rnd, []string{"list", "sign", "add", "remove", "removeall", "lock", "unlock", "raw", "list", "remove"})}
 			}
 		}
 		pre := cur
-		var lab vLabel
-		var post vState
+		var lab zvfVLabel
+		var post zvfVState
 		if op == "tick" || op == "dremove" || op == "dlock" || op == "dunlock" {
 			res := in.exec(op, arg)
-			lab = vLabel{Op: op, Arg: arg, F: vFault{"none", "none"}, Res: res}
+			lab = zvfVLabel{Op: op, Arg: arg, F: zvfVFault{"none", "none"}, Res: res}
 			post = in.project()
 		} else {
 			lab, post = in.step(op, arg, f)
 		}
-		recs = append(recs, vRec{Ev: "step", Tid: tid, I: i + 1, Pre: &pre, E: &lab, Post: post})
+		recs = append(recs, zvfVRec{Ev: "step", Tid: tid, I: i + 1, Pre: &pre, E: &lab, Post: post})
 		atomic.AddInt64(&st.randomSteps, 1)
 		cur = post
 	}
 	{
 		pre := cur
-		lab, post := in.step("signersuse", "", vFault{})
-		recs = append(recs, vRec{Ev: "step", Tid: tid, I: n + 1, Pre: &pre, E: &lab, Post: post})
+		lab, post := in.step("signersuse", "", zvfVFault{})
+		recs = append(recs, zvfVRec{Ev: "step", Tid: tid, I: n + 1, Pre: &pre, E: &lab, Post: post})
 	}
 	tr.EmitAll(recs)
 }
